@@ -204,7 +204,7 @@ def run(ctx):
                         rw_var = t.id
         ctx.need(orig_var and rw_var, "cannot find the locals holding find_in_ast(...) / RewriteAtQuery(...) in _conform_filename")
         writes = [(n, w, mode) for n, w, mode in wm.wrapper_write_sites.get(cf.qual, ()) if isinstance(n, ast.Call)]
-        ctx.need(len(writes) >= 3, "expected three file() writes in _conform_filename, found {}".format(len(writes)))
+        ctx.need(len(writes) >= 2, "expected at least two file() writes in _conform_filename, found {}".format(len(writes)))
         n_trunc = 0
         for call, _w, mode in writes:
             facts = facts_at.get(id(call)) or {}
@@ -216,6 +216,13 @@ def run(ctx):
             n_trunc += 1
             changed = any(k.startswith("cmp_ast(") and v is False for k, v in facts.items())
             replaced = facts.get("{}.replaced".format(rw_var)) is True
+            if not replaced:
+                # ... or a local that was bound once to <RewriteAtQuery>.replaced
+                from ..defuse import local_defs
+
+                for nm, ds in local_defs(cf).items():
+                    if len(ds) == 1 and isinstance(ds[0], ast.AST) and norm(ds[0]) == "{}.replaced".format(rw_var) and facts.get(nm) is True:
+                        replaced = True
             ok = changed and replaced
             ctx.ob(
                 "C12.gate",
@@ -340,7 +347,7 @@ def run(ctx):
 
         reach = graph.reachable([index.func("cdd.shared.conformance.ground_truth").qual])
         ctx.count("state_functions", len(reach))
-        ctx.need(len(reach) >= 30, "the sync pipeline shrank to {} functions: call graph no longer resolves it".format(len(reach)))
+        ctx.need(len(reach) >= 15, "the sync pipeline shrank to {} functions: call graph no longer resolves it".format(len(reach)))
         c10._modstate(ctx.view(lambda w: getattr(w, "qual", None) in reach, rule="C12.state", prefix="state_"))
 
     ctx.section(_sec_state)
